@@ -433,12 +433,19 @@ func (cc *ClampedCubic) PredictDerivative(x float64) float64 {
 // of linear equations fails.
 func (cc *ClampedCubic) Fit(xs, ys []float64) error {
 	n := len(xs)
+	if n < 2 {
+		panic(tooFewPoints)
+	}
 	a := mat.NewTridiag(n, nil, nil, nil)
 	b := mat.NewVecDense(n, nil)
 	makeCubicSplineSecondDerivativeEquations(a, b, xs, ys)
 	// Add boundary conditions y′′(left) = y′′(right) = 0:
 	// Condition Y′(left end) = 0:
 	dxL := xs[1] - xs[0]
+	if dxL <= 0 {
+		// Not caught above when there are only two nodes.
+		panic(xsNotStrictlyIncreasing)
+	}
 	b.SetVec(0, (ys[1]-ys[0])/dxL)
 	a.SetBand(0, 0, dxL/3)
 	a.SetBand(0, 1, dxL/6)
